@@ -7,16 +7,6 @@
 
 struct evdns_base *ev_dns;
 struct event_base *ev_base;
-static int vp_dummy_log_type;
-
-#ifndef VP_HAVE_LOG
-struct log_type *log_type_register(const char *name, const char *default_target)
-{
-    (void)name; (void)default_target;
-    return (struct log_type *)&vp_dummy_log_type;
-}
-#endif
-
 struct evdns_getaddrinfo_request *evdns_getaddrinfo(struct evdns_base *dns_base, const char *nodename,
     const char *servname, const struct evutil_addrinfo *hints_in, evdns_getaddrinfo_cb cb, void *arg)
 {
